@@ -1,4 +1,5 @@
 import ComposeVerif.Props.C09Leaves
+import ComposeVerif.Model.RoundTripScope
 /-!
 # C09 — services and builds in the generic round trip: everything except `env_file` and `build.ssh`
 
@@ -112,6 +113,11 @@ theorem roundtrip_Services_partial (v : Val)
     simp only [Bool.and_eq_true] at this
     exact this.2
   exact generic_roundtrip_fmt genEnv .yaml leavesNoEnvSSH (leavesNoEnvSSH_sound genEnv leafEnv_gen .yaml) 17 _ v hp hs
+
+/-- the harness classifier (`Model/RoundTripScope.lean`, op `c09.rt`) measures the scope of exactly these leaves -/
+theorem classifier_leaves_match :
+    RoundTripScope.leafNames = leavesNoEnvSSH.names ∧ RoundTripScope.leafDepth = leavesNoEnvSSH.depth := by
+  decide
 
 /-! ## non-vacuity: a service with an image, a command and an explicitly empty entrypoint -/
 
